@@ -7,6 +7,8 @@ import AslProofs.JsonSpec
 import AslProofs.XdlRfcMain
 import AslProofs.XdlPrefix
 import AslProofs.XdlPrefixStr
+import AslProofs.NumValDefs
+import AslProofs.IntLit
 /-!
 # C06 — JSON/XDL decoding is total, memory-safe, chunk-independent and RFC 8259 conformant
 
@@ -126,6 +128,39 @@ theorem rfc_accept_chunked (v : JV) (chunks : List Bytes) (h : Rfc8259.SerDoc v 
     exact AslProofs.XdlRfc.serDoc_nonul h (List.mem_flatten.mpr ⟨c, hc, h0⟩)
   rw [chunk_indep chunks hn]
   exact rfc_accept v _ h hd
+
+/-- **integer literals of every length** (state INT; `Gen.Xdl.intSplit` is the character count read from the
+    `if (_buffer.length() > N) new_number(ASL_ATOF(_buffer)); else new_number(myatoiz(_buffer));` of
+    src/Xdl.cpp by the translator, which refuses any other shape of that statement).  For the literal
+    `[-]digits` spelling the integer `±n`:
+    * at most `intSplit` = 9 characters: the decoder builds the `int` with exactly that decimal value;
+    * longer: it builds the double `atof` returns on the lexeme (`Strtod.atofBits`, the bits the
+      correspondence check compares with the library on every run), and that double is
+      - exactly `±n` when `n < 2^53`,
+      - `±k` with `k` the multiple of the binary64 spacing at `n` nearest to `n`, ties to the even significand
+        (`NumVal.Nearest53`), when `2^53 ≤ n < 2^1024` — or ±infinity if that `k` is `2^1024`,
+      - ±infinity when `n ≥ 2^1024`.
+    In particular the sign of the result is the sign of the literal and 9223372036854775808 ↦ 2^63. -/
+theorem int_literal_value (minus ip : Bytes) (hm : minus = [] ∨ minus = [45]) (hip : Rfc8259.IntPart ip) :
+    Gen.Xdl.intSplit = 9 ∧
+    Rfc8259.norm (.num (minus ++ ip)) =
+      (if (minus ++ ip).length ≤ Gen.Xdl.intSplit then .int (Rfc8259.decVal (minus ++ ip)) else .num (minus ++ ip)) ∧
+    ∃ n : Nat, Rfc8259.decVal (minus ++ ip) = (if minus = [45] then -(n : Int) else (n : Int)) ∧
+      (n < 2 ^ 53 → NumVal.dval (AslModel.Strtod.atofBits (minus ++ ip)) = ((Rfc8259.decVal (minus ++ ip) : Int) : Rat)) ∧
+      (2 ^ 53 ≤ n → n < 2 ^ 1024 → ∃ k, NumVal.Nearest53 n k ∧
+          (k < 2 ^ 1024 → NumVal.dval (AslModel.Strtod.atofBits (minus ++ ip)) = (if minus = [45] then -(k : Rat) else (k : Rat))) ∧
+          (2 ^ 1024 ≤ k → AslModel.Strtod.atofBits (minus ++ ip) = NumVal.infBits (decide (minus = [45])))) ∧
+      (2 ^ 1024 ≤ n → AslModel.Strtod.atofBits (minus ++ ip) = NumVal.infBits (decide (minus = [45]))) := by
+  refine ⟨rfl, ?_, AslProofs.Num.int_literal_atof minus ip hm hip⟩
+  have h := AslProofs.XdlRfc.isIntLex_int minus ip hm hip
+  rw [show Gen.Xdl.intSplit = 9 from rfl]
+  show (if Rfc8259.isIntLex (minus ++ ip) = true ∧ (minus ++ ip).length ≤ 9 then _ else _) = _
+  by_cases hl : List.length (minus ++ ip) ≤ 9
+  · rw [if_pos ⟨h, hl⟩, if_pos hl]
+  · rw [if_neg (fun hh => hl hh.2), if_neg hl]
+
+example : NumVal.Nearest53 9223372036854775808 (2 ^ 63) :=
+  ⟨2 ^ 52, by decide, by decide, by decide, by decide, by decide, by decide⟩
 
 /-- the integer the decoder returns for a short integer lexeme is its decimal value, e.g. "-120" ↦ -120 -/
 example : Rfc8259.norm (.num [45, 49, 50, 48]) = .int (-120) := by rfl
